@@ -32,26 +32,39 @@ theorem setL_now (cd : Codec) (wall : Int) : ∀ (ls : List Layer) (be : Backend
   | .snap :: ls, be, k, v, ttl => setL_now cd wall ls be k (cd.enc v) ttl
   | .lru _ _ _ :: ls, be, k, v, ttl => setL_now cd wall ls be k v ttl
 
-theorem set_nil (cd : Codec) (wall : Int) (be : Backend) (f : View) (k : Key) (v : Bytes) (ttl b : Int)
-    (h : Inv cd wall be [] f) : Inv cd wall (be.set k v ttl) [] (upd f k (some (v, be.now + ttl, b))) := by
-  intro k2 it hg hl
-  simp only [Backend.set] at hg hl
-  rw [aGet_aPut] at hg
-  simp only [upd]
-  split at hg
-  · rename_i hk
-    simp only [Option.some.injEq] at hg
-    subst hg
-    exact ⟨_, _, by rw [if_pos hk], Int.le_refl _⟩
-  · rename_i hk
-    rw [if_neg hk]
-    exact h k2 it hg hl
+theorem set_nil (cd : Codec) (be : Backend) (f : View) (k : Key) (v : Bytes) (ttl b : Int)
+    (h : Inv cd be [] f) : Inv cd (be.set k v ttl) [] (upd f k (some (v, be.now + ttl, b))) := by
+  refine ⟨?_, ?_⟩
+  · intro k2 it hg
+    simp only [Backend.set] at hg
+    rw [aGet_aPut] at hg
+    simp only [upd]
+    split at hg
+    · rename_i hk
+      simp only [Option.some.injEq] at hg
+      subst hg
+      exact ⟨b, by rw [if_pos hk]⟩
+    · rename_i hk
+      rw [if_neg hk]
+      exact h.1 k2 it hg
+  · intro k2 v2 a2 b2 hf
+    simp only [upd] at hf
+    simp only [Backend.set]
+    rw [aGet_aPut]
+    split at hf
+    · rename_i hk
+      simp only [Option.some.injEq, Prod.mk.injEq] at hf
+      obtain ⟨rfl, rfl, rfl⟩ := hf
+      rw [if_pos hk]
+    · rename_i hk
+      rw [if_neg hk]
+      exact h.2 k2 v2 a2 b2 hf
 
 theorem setL_spec (cd : Codec) (wall : Int) : ∀ (ls : List Layer) (f : View) (be : Backend) (k : Key) (v : Bytes) (ttl : Int),
-    Inv cd wall be ls f →
+    Inv cd be ls f →
     same ls (setL cd wall ls be k v ttl).1 ∧
-    Inv cd wall (setL cd wall ls be k v ttl).2 (setL cd wall ls be k v ttl).1 (upd f k (some (v, be.now + ttl, wall + ttl)))
-  | [], f, be, k, v, ttl, h => ⟨same_refl _, set_nil cd wall be f k v ttl _ h⟩
+    Inv cd (setL cd wall ls be k v ttl).2 (setL cd wall ls be k v ttl).1 (upd f k (some (v, be.now + ttl, wall + ttl)))
+  | [], f, be, k, v, ttl, h => ⟨same_refl _, set_nil cd be f k v ttl _ h⟩
   | .ver n :: ls, f, be, k, v, ttl, h => by
     obtain ⟨h1, h2⟩ := setL_spec cd wall ls (tVer n f) be (addVersion n k) v ttl h
     refine ⟨same_cons rfl h1, ?_⟩
@@ -66,11 +79,11 @@ theorem setL_spec (cd : Codec) (wall : Int) : ∀ (ls : List Layer) (f : View) (
     obtain ⟨hE, h0, hno⟩ := h
     obtain ⟨h1, h2⟩ := setL_spec cd wall ls f be k v ttl h0
     refine ⟨same_cons rfl h1, ?_, h2, same_noLru h1 hno⟩
-    intro k2 it hg hl
+    intro k2 it hg
     simp only [upd]
     rcases aGet_lruAdd hg with ⟨hk, hx⟩ | ⟨hk, hx⟩
-    · subst hx; exact ⟨_, _, by rw [if_pos hk], Int.le_refl _⟩
-    · rw [if_neg hk]; exact hE k2 it hx hl
+    · subst hx; exact ⟨_, by rw [if_pos hk]⟩
+    · rw [if_neg hk]; exact hE k2 it hx
 
 /-! ### Delete -/
 
@@ -80,38 +93,46 @@ theorem delL_now : ∀ (ls : List Layer) (be : Backend) (k : Key), (delL ls be k
   | .snap :: ls, be, k => delL_now ls be k
   | .lru _ _ _ :: ls, be, k => delL_now ls be k
 
-theorem delL_spec (cd : Codec) (wall : Int) : ∀ (ls : List Layer) (f : View) (be : Backend) (k : Key),
-    Inv cd wall be ls f →
-    same ls (delL ls be k).1 ∧ Inv cd wall (delL ls be k).2 (delL ls be k).1 (upd f k none)
+theorem delL_spec (cd : Codec) : ∀ (ls : List Layer) (f : View) (be : Backend) (k : Key),
+    Inv cd be ls f →
+    same ls (delL ls be k).1 ∧ Inv cd (delL ls be k).2 (delL ls be k).1 (upd f k none)
   | [], f, be, k, h => by
-    refine ⟨same_refl _, ?_⟩
-    intro k2 it hg hl
-    simp only [delL, Backend.del] at hg hl
-    rw [aGet_aDel] at hg
-    simp only [upd]
-    split at hg
-    · simp at hg
-    · rename_i hk; rw [if_neg hk]; exact h k2 it hg hl
+    refine ⟨same_refl _, ?_, ?_⟩
+    · intro k2 it hg
+      simp only [delL, Backend.del] at hg
+      rw [aGet_aDel] at hg
+      simp only [upd]
+      split at hg
+      · simp at hg
+      · rename_i hk; rw [if_neg hk]; exact h.1 k2 it hg
+    · intro k2 v2 a2 b2 hf
+      simp only [upd] at hf
+      simp only [delL, Backend.del]
+      split at hf
+      · simp at hf
+      · rename_i hk
+        rw [aGet_aDel_ne hk]
+        exact h.2 k2 v2 a2 b2 hf
   | .ver n :: ls, f, be, k, h => by
-    obtain ⟨h1, h2⟩ := delL_spec cd wall ls (tVer n f) be (addVersion n k) h
+    obtain ⟨h1, h2⟩ := delL_spec cd ls (tVer n f) be (addVersion n k) h
     refine ⟨same_cons rfl h1, ?_⟩
     simp only [delL, Inv]
     rw [tVer_upd]; exact h2
   | .snap :: ls, f, be, k, h => by
-    obtain ⟨h1, h2⟩ := delL_spec cd wall ls (tSnap cd f) be k h
+    obtain ⟨h1, h2⟩ := delL_spec cd ls (tSnap cd f) be k h
     refine ⟨same_cons rfl h1, ?_⟩
     simp only [delL, Inv]
     rw [tSnap_upd]; exact h2
   | .lru sz d e :: ls, f, be, k, h => by
     obtain ⟨hE, h0, hno⟩ := h
-    obtain ⟨h1, h2⟩ := delL_spec cd wall ls f be k h0
+    obtain ⟨h1, h2⟩ := delL_spec cd ls f be k h0
     refine ⟨same_cons rfl h1, ?_, h2, same_noLru h1 hno⟩
-    intro k2 it hg hl
+    intro k2 it hg
     rw [aGet_aDel] at hg
     simp only [upd]
     split at hg
     · simp at hg
-    · rename_i hk; rw [if_neg hk]; exact hE k2 it hg hl
+    · rename_i hk; rw [if_neg hk]; exact hE k2 it hg
 
 /-! ### Add -/
 
@@ -180,13 +201,13 @@ theorem tSnap_updAll (cd : Codec) (a b : Int) : ∀ (data : Res) (f : View),
     rw [tSnap_updAll cd a b rest, tSnap_upd]
     rfl
 
-theorem setMulti_nil (cd : Codec) (wall : Int) (ttl b : Int) : ∀ (data : Res) (be : Backend) (f : View),
-    Inv cd wall be [] f →
-    (be.setMulti data ttl).now = be.now ∧ Inv cd wall (be.setMulti data ttl) [] (updAll f data (be.now + ttl) b)
+theorem setMulti_nil (cd : Codec) (ttl b : Int) : ∀ (data : Res) (be : Backend) (f : View),
+    Inv cd be [] f →
+    (be.setMulti data ttl).now = be.now ∧ Inv cd (be.setMulti data ttl) [] (updAll f data (be.now + ttl) b)
   | [], _, _, h => ⟨rfl, h⟩
   | (k1, v1) :: rest, be, f, h => by
-    have h1 := set_nil cd wall be f k1 v1 ttl b h
-    obtain ⟨h2, h3⟩ := setMulti_nil cd wall ttl b rest (be.set k1 v1 ttl) _ h1
+    have h1 := set_nil cd be f k1 v1 ttl b h
+    obtain ⟨h2, h3⟩ := setMulti_nil cd ttl b rest (be.set k1 v1 ttl) _ h1
     exact ⟨h2, h3⟩
 
 theorem setMultiL_now (cd : Codec) (wall : Int) : ∀ (ls : List Layer) (be : Backend) (data : Res) (ttl : Int) (hs : List (List Key)),
@@ -208,11 +229,11 @@ theorem nodup_map_addVersion (n : Nat) (data : Res) (h : (data.map (·.1)).Nodup
   exact List.Pairwise.map (addVersion n) (fun a b hab hc => hab (addVersion_inj hc).2) h
 
 theorem setMultiL_spec (cd : Codec) (wall : Int) : ∀ (ls : List Layer) (f : View) (be : Backend) (data : Res) (ttl : Int)
-    (hs : List (List Key)), (data.map (·.1)).Nodup → Inv cd wall be ls f →
+    (hs : List (List Key)), (data.map (·.1)).Nodup → Inv cd be ls f →
     same ls (setMultiL cd wall ls be data ttl hs).1 ∧
-    Inv cd wall (setMultiL cd wall ls be data ttl hs).2 (setMultiL cd wall ls be data ttl hs).1
+    Inv cd (setMultiL cd wall ls be data ttl hs).2 (setMultiL cd wall ls be data ttl hs).1
       (updAll f data (be.now + ttl) (wall + ttl))
-  | [], f, be, data, ttl, hs, _, h => ⟨same_refl _, (setMulti_nil cd wall ttl _ data be f h).2⟩
+  | [], f, be, data, ttl, hs, _, h => ⟨same_refl _, (setMulti_nil cd ttl _ data be f h).2⟩
   | .ver n :: ls, f, be, data, ttl, hs, hnd, h => by
     obtain ⟨h1, h2⟩ := setMultiL_spec cd wall ls (tVer n f) be _ ttl hs.tail (nodup_map_addVersion n data hnd) h
     refine ⟨same_cons rfl h1, ?_⟩
@@ -229,17 +250,52 @@ theorem setMultiL_spec (cd : Codec) (wall : Int) : ∀ (ls : List Layer) (f : Vi
     obtain ⟨hE, h0, hno⟩ := h
     obtain ⟨h1, h2⟩ := setMultiL_spec cd wall ls f be data ttl hs.tail hnd h0
     refine ⟨same_cons rfl h1, ?_, h2, same_noLru h1 hno⟩
-    intro k2 it hg hl
+    intro k2 it hg
     rcases aGet_lruAddAll sz (wall + ttl) _ _ k2 it hg with ⟨v, hit, hmem⟩ | ⟨hg2, hnm⟩
     · have hm : (k2, v) ∈ data := (List.mergeSort_perm data _).mem_iff.mp hmem
       subst hit
-      exact ⟨_, _, updAll_mem _ _ data f k2 v hnd hm, Int.le_refl _⟩
+      exact ⟨_, updAll_mem _ _ data f k2 v hnd hm⟩
     · have hnm' : k2 ∉ data.map (·.1) := by
         intro hc
         apply hnm
         obtain ⟨x, hx, hxk⟩ := List.mem_map.mp hc
         exact List.mem_map.mpr ⟨x, (List.mergeSort_perm data _).mem_iff.mpr hx, hxk⟩
       rw [updAll_not_mem _ _ data f k2 hnm']
-      exact hE k2 it hg2 hl
+      exact hE k2 it hg2
+
+/-! ### the backend holds a live entry under a key's physical name exactly when the judge's entry is within its TTL -/
+
+theorem live_iff (cd : Codec) (be : Backend) : ∀ (ls : List Layer) (f : View) (k : Key), Inv cd be ls f →
+    ((be.live (phys ls k)).isSome = true ↔ ∃ v a b, f k = some (v, a, b) ∧ be.now < a)
+  | [], f, k, h => by
+    simp only [phys, Backend.live]
+    constructor
+    · intro hl
+      cases hg : aGet k be.items with
+      | none => simp [hg] at hl
+      | some it =>
+        simp only [hg] at hl
+        obtain ⟨b, hf⟩ := h.1 k it hg
+        by_cases hlt : be.now < it.exp
+        · exact ⟨_, _, _, hf, hlt⟩
+        · simp [hlt] at hl
+    · rintro ⟨v, a, b, hf, hlt⟩
+      rw [h.2 k v a b hf]
+      simp [hlt]
+  | .ver n :: ls, f, k, h => by
+    have := live_iff cd be ls (tVer n f) (addVersion n k) h
+    rw [tVer_add] at this
+    exact this
+  | .snap :: ls, f, k, h => by
+    have := live_iff cd be ls (tSnap cd f) k h
+    simp only [phys]
+    rw [this]
+    constructor
+    · rintro ⟨ev, a, b, hf, hlt⟩
+      obtain ⟨v, hfv, _⟩ := tSnap_some hf
+      exact ⟨v, a, b, hfv, hlt⟩
+    · rintro ⟨v, a, b, hf, hlt⟩
+      exact ⟨_, a, b, tSnap_of hf, hlt⟩
+  | .lru _ _ _ :: ls, f, k, h => live_iff cd be ls f k h.2.1
 
 end PfC19
